@@ -13,29 +13,29 @@ CLAIMED = {
         technique="deterministic simulation: seeded interleaving of sender operations with the real Receiver::exec under a scripted, fault-injecting processor; reference-queue oracle plus history checks",
         text="Seeded exploration (not exhaustive) of interleavings x processor outcome sequences of the real emit_batcher channel on a virtual clock. Every first-attempt batch must equal the reference queue's hand-off, every retry must equal the returned remainder, and the whole history is re-checked for exactly-once / FIFO / accounted truncation. Exploration is the right level: the property is over schedules and fault sequences, which only sampling at this scale (10^5..10^7 runs) reaches with the real code.",
         note="Trusted: the reference queue model, the reduction argument that receiver-local steps commute with sender critical sections (so interleaving at lock hooks and processor/wait/watcher seams is complete for inline mode), the hook placement (one before_lock per acquisition of the channel state lock)."),
-    "C07": dict(engine="chan-inline + chan-threads + file-e2e", design="5/C07",
+    "C07": dict(engine="chan-inline + chan-threads + file-e2e + otlp-delivery", design="5/C07",
         technique="deterministic simulation with fault injection; history check at the instant each flush reports completion",
         text="Seeded exploration of flush requests (when_flushed, async flush) racing with hand-off, retries, failures, panics and truncation; a post-hoc check over the recorded history demands that at the completion event of every flush no item sent before the request is queued, in flight or awaiting retry.",
         note="Trusted: event sequence numbers are assigned by the single simulator thread; flushes completing at or after an injected receiver teardown carry no obligation (statement: while the receiver is alive)."),
-    "C08": dict(engine="chan-inline + chan-threads + calling-contexts + file-e2e", design="5/C08",
+    "C08": dict(engine="chan-inline + chan-threads + calling-contexts + file-e2e + otlp-delivery", design="5/C08",
         technique="deterministic simulation with fault injection; bounded-liveness and exactly-once-callback oracles on a virtual clock",
         text="Seeded exploration of processor outcome scripts (ok, permanent failure, retry with any remainder, panic in call or future, latency), panicking watchers, early sender drop; oracles: bounded attempts, non-decreasing bounded back-off reset per batch, callbacks exactly once, receiver drains and terminates within a step budget once the sender is dropped.",
         note="Trusted: step budget (2500 controller steps after close) is generous relative to the retry budget; retuned constants do not alarm (bounds are 64 attempts / 5 min)."),
-    "C09": dict(engine="chan-inline + chan-threads + file-e2e", design="5/C09",
+    "C09": dict(engine="chan-inline + chan-threads + file-e2e + otlp-delivery", design="5/C09",
         technique="deterministic simulation; reference-queue oracle compared with a state snapshot after every operation; lock-held-at-seam detector",
         text="Seeded exploration with small capacities, stalled / absent receivers and all send variants; after every operation the real queue length (snapshot hook and queue_length metric) must equal the reference queue and never exceed capacity; overflow keeps the newest item and counts once; try_send / async send hand the same item back, and only at or after expiry.",
         note="Trusted: verif_snapshot() reads the same fields the channel uses; virtual-time expiry comparisons are exact."),
 }
 
 CLAIMED.update({
-    "C10": dict(engine="fsim-faults", design="5/C10", level="fault_enumeration",
+    "C10": dict(engine="fsim-faults + file-e2e", design="5/C10", level="fault_enumeration",
         technique="deterministic simulation with fault injection: per generated batch history, every filesystem call index x every fault kind (error, EINTR, short/zero/torn write, crash before/after/mid-write with crash-recovery variants) plus sampled multi-fault sequences, against a durable-view oracle",
         text="For each seeded batch history the real emit_file worker runs over an in-memory filesystem that separates written from synced content and volatile from durable directory entries. One fault-free pass counts the calls (strict oracle), then a single fault of every applicable kind is injected at every call index (exhaustive over single faults for that history), then 2-4-fault sequences are sampled. After every acknowledged batch each event must be a complete record in what the worst-case crash would leave; after every call and crash every record of every file must be an event, empty, or a truncated prefix ending exactly where a write was interrupted. Fault enumeration per sampled history is the right level: the property quantifies over call index x fault kind, which is finite per history and is covered completely; histories themselves are sampled.",
-        note="Trusted: the filesystem model (a directory entry is durable only after sync_parent; un-synced suffixes may be lost in any part; deletions not followed by a directory sync may be undone); the harness re-submits a retry remainder like the channel does, a bounded number of times; events whose file the set's own retention deleted are exempt from the durability claim. StdFilesystem and real disks are not exercised."),
-    "C11": dict(engine="fsim-rolling", design="5/C11",
+        note="Trusted: the filesystem model (a directory entry is durable only after sync_parent; un-synced suffixes may be lost in any part; deletions not followed by a directory sync may be undone); the harness re-submits a retry remainder like the channel does, a bounded number of times; events whose file the set's own retention deleted are exempt from the durability claim. StdFilesystem and real disks are not exercised under faults (fsim-realfs under C11 compares the model with them fault-free)."),
+    "C11": dict(engine="fsim-rolling + fsim-realfs", design="5/C11",
         technique="deterministic simulation: generated configurations x directory contents x clock trajectories x batch histories with restarts, real worker against a reference rolling policy and the filesystem call log",
         text="Seeded exploration of configurations (templates with dotted / sibling-extended prefixes, roll interval, max_files 1..6/32, size limits, reuse), pre-existing directory contents (own files of earlier runs, sibling sets, strangers), clock trajectories (zero, forward, period-crossing, backward) and batch histories with restarts and overflow-built batches. A reference policy decides per batch whether a new file must start; the call log is checked for exactly one file written, strict name grammar with the period and counter of the clock reading, retention bound and order, no panic, and no touch of any file outside the set.",
-        note="Trusted: the reference rolling policy and the strict name grammar (prefix.period.counter.id.ext with period of any of the three roll shapes); order-related rules apply only while the generated clock never steps back."),
+        note="Trusted: the reference rolling policy and the strict name grammar (prefix.period.counter.id.ext with period of any of the three roll shapes); order-related rules apply only while the generated clock never steps back. The fsim-realfs engine additionally executes each generated plan over the production StdFilesystem in a scratch directory and demands byte-identical directory contents and batch outcomes after every step, so the filesystem model the verdicts rest on is itself checked against the real thing (fault-free only)."),
 })
 
 CLAIMED.update({
@@ -143,15 +143,17 @@ def main():
             {"name": "chan-threads", "path": "/verif/sim/src/chan_threads.rs", "serves_properties": ["C06", "C07", "C08", "C09"],
              "kind_free_text": "real sync.rs entry points on real OS threads under a baton-passing scheduler with virtual time, spurious wake-ups and early timers"},
             {"name": "calling-contexts", "path": "/verif/sim/src/ctx_probes.rs", "serves_properties": ["C08"],
-             "kind_free_text": "deterministic probes of the blocking entry points' immediate paths from plain / tokio current-thread / multi-thread / spawn_blocking contexts"},
-            {"name": "file-e2e", "path": "/verif/sim/src/file_e2e.rs", "serves_properties": ["C07", "C08", "C09"],
+             "kind_free_text": "deterministic probes of the blocking entry points' immediate paths from ten calling contexts (plain thread, tokio current-thread, multi-thread block_on / worker / spawn_blocking, LocalSet on either flavour, nested block_in_place, Runtime::enter)"},
+            {"name": "file-e2e", "path": "/verif/sim/src/file_e2e.rs", "serves_properties": ["C07", "C08", "C09", "C10"],
              "kind_free_text": "real FileSet(s) (JSON writer, channel, worker thread, blocking_flush, And) over the simulated filesystem in thread mode with stalls and retryable faults"},
-            {"name": "otlp-delivery", "path": "/verif/sim/src/otlp_sim.rs", "serves_properties": ["C12"],
+            {"name": "otlp-delivery", "path": "/verif/sim/src/otlp_sim.rs", "serves_properties": ["C12", "C07", "C08", "C09"],
              "kind_free_text": "real Otlp emitter over SimStream pipes against a scripted HTTP/1.1 + h2 collector on a simulated executor"},
             {"name": "otlp-routing", "path": "/verif/sim/src/otlp_sim.rs", "serves_properties": ["C14"],
              "kind_free_text": "same engine, event-shape x signal-subset workload with routing oracle"},
             {"name": "fsim-faults", "path": "/verif/sim/src/fsim.rs", "serves_properties": ["C10"],
              "kind_free_text": "real emit_file worker over a fault-injecting in-memory filesystem (written vs synced, durable vs volatile entries); single-fault enumeration per generated history + sampled multi-fault sequences"},
+            {"name": "fsim-realfs", "path": "/verif/sim/src/fs_diff.rs", "serves_properties": ["C11"],
+             "kind_free_text": "model fidelity: each generated fault-free plan runs through the real worker over SimFs and over the production StdFilesystem (scratch directory, same injected clock and rng); directory contents and batch outcomes must agree after every step"},
             {"name": "fsim-rolling", "path": "/verif/sim/src/fsim.rs", "serves_properties": ["C11"],
              "kind_free_text": "real emit_file worker over the in-memory filesystem with scripted clock/rng against a reference rolling policy"},
         ],
